@@ -36,6 +36,10 @@ namespace Godi.Conc.Sh
   unfold cacheWrite; first | rfl | (split <;> rfl)
 @[simp] theorem cacheWrite_casWins (s : Sh) (k : Key) (i : Inst) : (s.cacheWrite k i).casWins = s.casWins := by
   unfold cacheWrite; first | rfl | (split <;> rfl)
+@[simp] theorem cacheWrite_snap (s : Sh) (k : Key) (i : Inst) : (s.cacheWrite k i).snap = s.snap := by
+  unfold cacheWrite; first | rfl | (split <;> rfl)
+@[simp] theorem cacheWrite_userCancelled (s : Sh) (k : Key) (i : Inst) : (s.cacheWrite k i).userCancelled = s.userCancelled := by
+  unfold cacheWrite; first | rfl | (split <;> rfl)
 @[simp] theorem cacheWrite_resurrected (s : Sh) (k : Key) (i : Inst) : (s.cacheWrite k i).resurrected = s.resurrected := by
   unfold cacheWrite; first | rfl | (split <;> rfl)
 @[simp] theorem childWrite_disposed (s : Sh) (c : Cid) : (s.childWrite c).disposed = s.disposed := by
@@ -73,6 +77,10 @@ namespace Godi.Conc.Sh
 @[simp] theorem childWrite_ever (s : Sh) (c : Cid) : (s.childWrite c).ever = s.ever := by
   unfold childWrite; first | rfl | (split <;> rfl)
 @[simp] theorem childWrite_casWins (s : Sh) (c : Cid) : (s.childWrite c).casWins = s.casWins := by
+  unfold childWrite; first | rfl | (split <;> rfl)
+@[simp] theorem childWrite_snap (s : Sh) (c : Cid) : (s.childWrite c).snap = s.snap := by
+  unfold childWrite; first | rfl | (split <;> rfl)
+@[simp] theorem childWrite_userCancelled (s : Sh) (c : Cid) : (s.childWrite c).userCancelled = s.userCancelled := by
   unfold childWrite; first | rfl | (split <;> rfl)
 @[simp] theorem childWrite_resurrected (s : Sh) (c : Cid) : (s.childWrite c).resurrected = s.resurrected := by
   unfold childWrite; first | rfl | (split <;> rfl)
@@ -112,6 +120,10 @@ namespace Godi.Conc.Sh
   unfold scopeWrite; first | rfl | (split <;> rfl)
 @[simp] theorem scopeWrite_casWins (s : Sh) (c : Nat) : (s.scopeWrite c).casWins = s.casWins := by
   unfold scopeWrite; first | rfl | (split <;> rfl)
+@[simp] theorem scopeWrite_snap (s : Sh) (c : Nat) : (s.scopeWrite c).snap = s.snap := by
+  unfold scopeWrite; first | rfl | (split <;> rfl)
+@[simp] theorem scopeWrite_userCancelled (s : Sh) (c : Nat) : (s.scopeWrite c).userCancelled = s.userCancelled := by
+  unfold scopeWrite; first | rfl | (split <;> rfl)
 @[simp] theorem scopeWrite_resurrected (s : Sh) (c : Nat) : (s.scopeWrite c).resurrected = s.resurrected := by
   unfold scopeWrite; first | rfl | (split <;> rfl)
 @[simp] theorem childDelete_disposed (s : Sh) (c : Cid) : (s.childDelete c).disposed = s.disposed := by
@@ -149,6 +161,10 @@ namespace Godi.Conc.Sh
 @[simp] theorem childDelete_ever (s : Sh) (c : Cid) : (s.childDelete c).ever = s.ever := by
   unfold childDelete; first | rfl | (split <;> rfl)
 @[simp] theorem childDelete_casWins (s : Sh) (c : Cid) : (s.childDelete c).casWins = s.casWins := by
+  unfold childDelete; first | rfl | (split <;> rfl)
+@[simp] theorem childDelete_snap (s : Sh) (c : Cid) : (s.childDelete c).snap = s.snap := by
+  unfold childDelete; first | rfl | (split <;> rfl)
+@[simp] theorem childDelete_userCancelled (s : Sh) (c : Cid) : (s.childDelete c).userCancelled = s.userCancelled := by
   unfold childDelete; first | rfl | (split <;> rfl)
 @[simp] theorem childDelete_panicked (s : Sh) (c : Cid) : (s.childDelete c).panicked = s.panicked := by
   unfold childDelete; first | rfl | (split <;> rfl)
@@ -190,6 +206,10 @@ namespace Godi.Conc.Sh
   unfold scopeDelete; first | rfl | (split <;> rfl)
 @[simp] theorem scopeDelete_casWins (s : Sh) (c : Nat) : (s.scopeDelete c).casWins = s.casWins := by
   unfold scopeDelete; first | rfl | (split <;> rfl)
+@[simp] theorem scopeDelete_snap (s : Sh) (c : Nat) : (s.scopeDelete c).snap = s.snap := by
+  unfold scopeDelete; first | rfl | (split <;> rfl)
+@[simp] theorem scopeDelete_userCancelled (s : Sh) (c : Nat) : (s.scopeDelete c).userCancelled = s.userCancelled := by
+  unfold scopeDelete; first | rfl | (split <;> rfl)
 @[simp] theorem scopeDelete_panicked (s : Sh) (c : Nat) : (s.scopeDelete c).panicked = s.panicked := by
   unfold scopeDelete; first | rfl | (split <;> rfl)
 @[simp] theorem scopeDelete_resurrected (s : Sh) (c : Nat) : (s.scopeDelete c).resurrected = s.resurrected := by
@@ -230,6 +250,10 @@ namespace Godi.Conc.Sh
   unfold dispAppend; first | rfl | (split <;> rfl)
 @[simp] theorem dispAppend_casWins (s : Sh) (i : Inst) : (s.dispAppend i).casWins = s.casWins := by
   unfold dispAppend; first | rfl | (split <;> rfl)
+@[simp] theorem dispAppend_snap (s : Sh) (i : Inst) : (s.dispAppend i).snap = s.snap := by
+  unfold dispAppend; first | rfl | (split <;> rfl)
+@[simp] theorem dispAppend_userCancelled (s : Sh) (i : Inst) : (s.dispAppend i).userCancelled = s.userCancelled := by
+  unfold dispAppend; first | rfl | (split <;> rfl)
 @[simp] theorem dispAppend_panicked (s : Sh) (i : Inst) : (s.dispAppend i).panicked = s.panicked := by
   unfold dispAppend; first | rfl | (split <;> rfl)
 @[simp] theorem alloc_disposed (s : Sh)  : (s.alloc).disposed = s.disposed := by
@@ -265,6 +289,10 @@ namespace Godi.Conc.Sh
 @[simp] theorem alloc_ever (s : Sh)  : (s.alloc).ever = s.ever := by
   unfold alloc; first | rfl | (split <;> rfl)
 @[simp] theorem alloc_casWins (s : Sh)  : (s.alloc).casWins = s.casWins := by
+  unfold alloc; first | rfl | (split <;> rfl)
+@[simp] theorem alloc_snap (s : Sh)  : (s.alloc).snap = s.snap := by
+  unfold alloc; first | rfl | (split <;> rfl)
+@[simp] theorem alloc_userCancelled (s : Sh)  : (s.alloc).userCancelled = s.userCancelled := by
   unfold alloc; first | rfl | (split <;> rfl)
 @[simp] theorem alloc_panicked (s : Sh)  : (s.alloc).panicked = s.panicked := by
   unfold alloc; first | rfl | (split <;> rfl)
@@ -306,6 +334,10 @@ namespace Godi.Conc.Sh
   unfold userClose; first | rfl | (split <;> rfl)
 @[simp] theorem userClose_casWins (s : Sh) (i : Inst) : (s.userClose i).casWins = s.casWins := by
   unfold userClose; first | rfl | (split <;> rfl)
+@[simp] theorem userClose_snap (s : Sh) (i : Inst) : (s.userClose i).snap = s.snap := by
+  unfold userClose; first | rfl | (split <;> rfl)
+@[simp] theorem userClose_userCancelled (s : Sh) (i : Inst) : (s.userClose i).userCancelled = s.userCancelled := by
+  unfold userClose; first | rfl | (split <;> rfl)
 @[simp] theorem userClose_panicked (s : Sh) (i : Inst) : (s.userClose i).panicked = s.panicked := by
   unfold userClose; first | rfl | (split <;> rfl)
 @[simp] theorem userClose_resurrected (s : Sh) (i : Inst) : (s.userClose i).resurrected = s.resurrected := by
@@ -324,8 +356,8 @@ theorem scopeWrite_some (s : Sh) (c : Nat) (l : List Nat) (h : s.scopes = some l
 theorem dispAppend_some (s : Sh) (i : Inst) (l : List Inst) (h : s.disposables = some l) :
     (s.dispAppend i).disposables = some (l ++ [i]) ∧ (s.dispAppend i).resurrected = s.resurrected := by
   unfold dispAppend; rw [h]; exact ⟨rfl, rfl⟩
-@[simp] theorem childDelete_children (s : Sh) (c : Cid) : (s.childDelete c).children = s.children.map (·.erase c) := rfl
-@[simp] theorem scopeDelete_scopes (s : Sh) (c : Nat) : (s.scopeDelete c).scopes = s.scopes.map (·.erase c) := rfl
+@[simp] theorem childDelete_children (s : Sh) (c : Cid) : (s.childDelete c).children = s.children.map (·.filter (· != c)) := rfl
+@[simp] theorem scopeDelete_scopes (s : Sh) (c : Nat) : (s.scopeDelete c).scopes = s.scopes.map (·.filter (· != c)) := rfl
 @[simp] theorem alloc_nextI (s : Sh) : s.alloc.nextI = s.nextI + 1 := rfl
 @[simp] theorem alloc_created (s : Sh) : s.alloc.created = s.nextI :: s.created := rfl
 @[simp] theorem userClose_closed (s : Sh) (i : Inst) : (s.userClose i).closed = i :: s.closed := rfl
